@@ -36,7 +36,7 @@ def build(t, tr, offs, behaviour, n, tag):
     for i, k in enumerate(offs):
         c = 10 + i
         k = min(k, N - 1)
-        ops += [f"rawconn {c} ep#0", f"rawhs {c} {peer} {k}"]
+        ops += [f"rawconn {c} ep#0", f"rawhs {c} {peer} {k}", f"rawwait {c} greeting"]
         if behaviour == "close":
             ops.append(f"rawclose {c}")
             failed += 1
